@@ -329,6 +329,12 @@ def sensitivity_audit(spec: PropSpec, prog: Program, base_ctx: Ctx) -> dict:
             continue
         gen += 1
         try:
+            import ast as _ast
+            _ast.parse(new_src)
+        except SyntaxError:
+            missed.append(f"{name} (variant is not valid Python - generator bug)")
+            continue
+        try:
             vprog = prog.variant(rel, new_src)
             vctx = Ctx(vprog, spec.pid)
             spec.check(vctx)
